@@ -253,6 +253,31 @@ def generate(rng, tier):
             for k in (0, 1, 2, 5):
                 cases.append(("interp.histtxbits", [u, l, t, str(idx), str(k)]))
 
+    # 3e. bits that only the NON-byte constructors can produce: every opcode of the enum as a bare ScriptBit::OpCode
+    #     (incl. OP_PUSHDATA1/2/4, the conditional opcodes as flat bits, the pseudo-opcodes), If blocks and PushData bits
+    #     carrying any opcode, at the first / middle / last position, inside taken and untaken branches; built with
+    #     from_script_bits, from_asm_string and from_transaction_and_script_bits
+    import os, re
+    src = open(os.path.join(os.environ.get("VERIF_REPO", "/repo"), "src/script/op_codes.rs"), encoding="utf-8").read()
+    enum = sorted({(int(v, 0), n) for n, v in re.findall(r"^\s*(OP_[A-Z0-9_]+)\s*=\s*(0x[0-9a-fA-F]+|\d+)\s*,", src, flags=re.M)})
+    for b, name in enum:
+        for t in ["o%d" % b, "o81,o%d,o82" % b, "o81,o82,o%d" % b, "o81,i99.1.1,o%d,o83" % b, "o0,i99.1.1,o%d,o83" % b, "o0,i100.2.1,o83,o%d,o84" % b,
+                  "o81,i%d.1.1,o82,o83" % b, "o0,i%d.0.x,o85" % b, "d%d.0102,o82" % b, "o81,i99.1.x,d%d.,o82" % b]:
+            addt(t)
+        cases.append(("interp.histtxbits", ["51", "52", "o81,o%d,o82" % b, "0", "3"]))
+        cases.append(("interp.histtxbits", ["51", "52", "o0,i99.1.1,o83,o%d" % b, "0", "1"]))
+        asm = ["%s", "OP_1 %s OP_2", "OP_1 OP_IF %s OP_ENDIF OP_2", "OP_0 OP_IF OP_3 OP_ELSE %s OP_ENDIF", "OP_1 OP_2 %s"]
+        for a in (asm if tier == "thorough" or b in (76, 77, 78) or 99 <= b <= 104 or b >= 251 else asm[1:4]):
+            cases.append(("interp.step_vs_runasm", [(a % name).encode().hex()]))
+    for a in ["", "OP_PUSHDATA1", "OP_1 OP_PUSHDATA2 OP_2", "0102 OP_PUSHDATA4", "OP_1 OP_IF OP_PUSHDATA1 OP_ENDIF", "OP_0 OP_IF OP_PUSHDATA1 OP_ENDIF OP_1",
+              "OP_ELSE", "OP_1 OP_ENDIF", "OP_IF", "OP_1 OP_IF", "0 1 16 ff", "OP_1 " + "ab" * 80 + " OP_SIZE", "OP_1 OP_VERIF OP_2 OP_ENDIF", "OP_NOPE", "OP_1\tOP_2\nOP_ADD"]:
+        cases.append(("interp.step_vs_runasm", [a.encode().decode("unicode_escape").encode().hex()]))
+    for t in ["p" + "ab" * 76 + ",o130", "o81,p" + "ab" * 200, "o81,i99.1.x,p" + "ab" * 100, "o0,i99.1.x,p" + "ab" * 100, "c,o81", "o81,c", "o81,i99.1.x,c00,o82", "o0,i99.1.1,c00,o82,o83",
+              "o0,i99.1.1,o82,c00", "d76." + "ab" * 80 + ",o130", "d77.,o130", "d78.01", "o81,i99.0.0,o82", "o0,i99.0.0,o82", "o81,i100.0.x", "i99.0.x"]:
+        addt(t)
+        cases.append(("interp.histbits", [t, "2"]))
+        cases.append(("interp.histtxbits", ["51", "52", t, "0", "2"]))
+
     # 4. random programs, random byte strings
     nprog = 300 if tier == "quick" else 4000
     for i in range(nprog):
